@@ -288,9 +288,10 @@ def tsat(p, bounds = False):
     if ok:
         from scipy.optimize import fsolve
         def f(t):
-            # fsolve passes its unknown as a 1-element array, sat() needs a scalar:
+            # fsolve passes its unknown as a 1-element array, sat() needs a scalar; an iterate may
+            # stray below 0.01 deg C (where sat() returns None) when p is sat(0.01):
             if isinstance(t, Iterable): t = t[0]
-            return sat(t) - p
+            return sat(max(t, 0.01)) - p
         from math import log
         t0 = max(4606.0 / (24.02 - log(p)) - 273.15, 5.0) # starting estimate
         t = fsolve(f, t0)
